@@ -41,14 +41,14 @@ import (
 
 type c12NullLog struct{}
 
-func (c12NullLog) Errorf(string, ...interface{})                {}
-func (c12NullLog) Infof(string, ...interface{})                 {}
-func (c12NullLog) Debugf(string, ...interface{})                {}
-func (c12NullLog) Error(string)                                 {}
-func (c12NullLog) Info(string)                                  {}
-func (c12NullLog) Debug(string)                                 {}
+func (c12NullLog) Errorf(string, ...interface{})                   {}
+func (c12NullLog) Infof(string, ...interface{})                    {}
+func (c12NullLog) Debugf(string, ...interface{})                   {}
+func (c12NullLog) Error(string)                                    {}
+func (c12NullLog) Info(string)                                     {}
+func (c12NullLog) Debug(string)                                    {}
 func (c12NullLog) WithFields(biolog.Fields) biolog.LoggerInterface { return c12NullLog{} }
-func (c12NullLog) WithError(error) biolog.LoggerInterface       { return c12NullLog{} }
+func (c12NullLog) WithError(error) biolog.LoggerInterface          { return c12NullLog{} }
 
 // c12Conn swallows everything the update sender writes.
 type c12Conn struct{}
